@@ -510,8 +510,13 @@ def classify(e):
     if isinstance(e, SimFault):
         return ["injected"]
     if isinstance(e, TypeError) and msg.startswith("No method in "):
+        # (the keyword arguments are listed in the order of the lookup key, which follows the order
+        # in which methods declared / registered them: kept as a sorted list)
         i = msg.find("argument types [")
-        return ["nomethod", msg[i + len("argument types "):] if i >= 0 else ""]
+        body = msg[i + len("argument types "):] if i >= 0 else ""
+        if body.startswith("[") and body.endswith("]"):
+            body = "[" + ", ".join(sorted(body[1:-1].split(", "))) + "]"
+        return ["nomethod", body]
     if isinstance(e, TypeError) and msg.startswith("Ambiguous resolution in "):
         cands = []
         for line in msg.splitlines():
@@ -534,8 +539,11 @@ def classify(e):
     if isinstance(e, TypeError) and ("positional argument" in msg or "keyword argument" in msg
                                      or "required keyword-only" in msg
                                      or "missing" in msg):
-        # call-shape rejection by the generated entry point
-        return ["shape", re.sub(r"^[\w.\[\], ]*\(\)", "()", strip_names(msg))[:100]]
+        # call-shape rejection by the generated entry point (parameter names sorted: they are
+        # listed in declaration order)
+        m2 = re.sub(r"^[\w.\[\], ]*\(\)", "()", strip_names(msg))[:100]
+        names = sorted(re.findall(r"'(\w+)'", m2))
+        return ["shape", re.sub(r"'\w+'", "'_'", m2) + " " + ",".join(names)]
     # internal / unexpected errors: the type only (messages may list set contents in
     # address-dependent order, e.g. graphlib.CycleError)
     return ["other", type(e).__name__]
@@ -543,3 +551,16 @@ def classify(e):
 
 def is_dispatch_verdict(out):
     return out[0] == "err" and out[2][0] in ("nomethod", "ambiguous")
+
+
+def canon_order(o):
+    """Error messages list keyword arguments in declaration order of the lookup key / entry point,
+    which follows registration order; where registration order is not part of what is compared,
+    compare those lists as sets."""
+    if o[0] == "err" and len(o) > 2 and o[2][0] == "nomethod" and len(o[2]) > 1 and isinstance(o[2][1], str):
+        body = o[2][1][1:-1] if o[2][1].startswith("[") and o[2][1].endswith("]") else o[2][1]
+        return [o[0], o[1], ["nomethod", sorted(body.split(", "))]]
+    if o[0] == "err" and len(o) > 2 and o[2][0] == "shape" and len(o[2]) > 1:
+        names = sorted(re.findall(r"'(\w+)'", o[2][1]))
+        return [o[0], o[1], ["shape", re.sub(r"'\w+'", "'_'", o[2][1]), names]]
+    return o
